@@ -646,6 +646,16 @@ namespace bloch::runtime {
         return {};
     }
 
+    // An index of type long outside the int range is out of bounds for every array; saturate it
+    // instead of truncating it to its low 32 bits (a[4294967296L] must not read a[0]).
+    static int indexFromLong(std::int64_t v) {
+        if (v > std::numeric_limits<int>::max())
+            return std::numeric_limits<int>::max();
+        if (v < 0)
+            return -1;
+        return static_cast<int>(v);
+    }
+
     // The language guide: "int values can widen to long in assignments and calls". A value bound
     // to a long variable, field or parameter is therefore stored as a long, so that later
     // arithmetic on it is 64-bit.
@@ -3103,7 +3113,7 @@ namespace bloch::runtime {
             if (idxv.type == Value::Type::Int)
                 idxi = idxv.intValue;
             else if (idxv.type == Value::Type::Long)
-                idxi = static_cast<int>(idxv.longValue);
+                idxi = indexFromLong(idxv.longValue);
             else if (idxv.type == Value::Type::Bit)
                 idxi = idxv.bitValue;
             else if (idxv.type == Value::Type::Float)
@@ -3241,7 +3251,7 @@ namespace bloch::runtime {
             if (idxv.type == Value::Type::Int)
                 i = idxv.intValue;
             else if (idxv.type == Value::Type::Long)
-                i = static_cast<int>(idxv.longValue);
+                i = indexFromLong(idxv.longValue);
             else if (idxv.type == Value::Type::Bit)
                 i = idxv.bitValue;
             else if (idxv.type == Value::Type::Float)
